@@ -67,6 +67,10 @@ const (
 type _LexerStateMachine struct {
 	token int
 	state int
+	// consumed is set once a character of the current token has been consumed.
+	// (Being in state 0 does not imply a token boundary: after minimisation the
+	// start state can be re-entered in the middle of a token.)
+	consumed bool
 	// accum is set while the text of an action-less fragment is pending, i.e. it
 	// has been matched but not yet emitted or discarded by a following rule.
 	accum     bool
@@ -117,6 +121,7 @@ func (l *_LexerStateMachine) PushRune(r rune) int {
 			switch {
 			case r >= rune(mode[k]) && r <= rune(mode[k+1]):
 				l.state = int(mode[k+2])
+				l.consumed = true
 				return _lexerConsume
 			case r < rune(mode[k]):
 				e = j
@@ -131,10 +136,10 @@ func (l *_LexerStateMachine) PushRune(r rune) int {
 	// Move 'i' to the beginning of the actions section.
 	i += gotoN * 3
 
-	// State 0 is a token boundary: nothing has been consumed yet, and an empty
-	// match is not a token. Skip the actions so that a rule that can match the
-	// empty string does not produce empty tokens for ever.
-	if l.state == 0 {
+	// At a token boundary nothing has been consumed yet, and an empty match is
+	// not a token. Skip the actions so that a rule that can match the empty
+	// string does not produce empty tokens for ever.
+	if !l.consumed {
 		i = end
 	}
 
@@ -153,14 +158,17 @@ func (l *_LexerStateMachine) PushRune(r rune) int {
 		case 3: // Accept
 			l.token = int(mode[i+1])
 			l.state = 0
+			l.consumed = false
 			l.accum = false
 			return _lexerAccept
 		case 4: // Discard
 			l.state = 0
+			l.consumed = false
 			l.accum = false
 			return _lexerDiscard
 		case 5: // Accum
 			l.state = 0
+			l.consumed = false
 			l.accum = true
 			return _lexerTryAgain
 		}
@@ -168,7 +176,7 @@ func (l *_LexerStateMachine) PushRune(r rune) int {
 
 	// The input may only end at a token boundary with no accumulated text
 	// pending; otherwise that text would be silently dropped.
-	if l.state == 0 && r == -1 && !l.accum {
+	if !l.consumed && r == -1 && !l.accum {
 		return _lexerEOF
 	}
 
@@ -178,6 +186,7 @@ func (l *_LexerStateMachine) PushRune(r rune) int {
 func (l *_LexerStateMachine) Reset() {
 	l.mode = nil
 	l.state = 0
+	l.consumed = false
 	l.accum = false
 }
 
